@@ -153,6 +153,19 @@ def rand_elem(rng, jsx=False, nparts=None):
     return {'name': name, 'parts': parts, 'text': text}
 
 
+def rand_text_elem(rng, jsx=False):
+    """C04_text_with_attributes: an element with plainly named attributes and ALWAYS a text {T}."""
+    e = rand_elem(rng, jsx)
+    parts = []
+    for kind, x in e['parts']:
+        if kind == 'set':
+            x = [a for a in x if not a['implied'] and not a['boolean'] and a['name']]
+        parts.append((kind, x))
+    e['parts'] = parts
+    e['text'] = rand_braced(rng)
+    return e
+
+
 def elem_text(e):
     out = [e['name']]
     for kind, x in e['parts']:
@@ -293,7 +306,7 @@ def from_json(t):
     return t
 
 
-def gen_cases(ctx, n_elem, n_stmt, n_value):
+def gen_cases(ctx, n_elem, n_stmt, n_value, n_textelem=0):
     rng = ctx.rng
     cases = []      # (kind, abbr, jsx, expected tree)
     d = os.path.join(VERIF, 'corpus', 'C03')
@@ -324,6 +337,10 @@ def gen_cases(ctx, n_elem, n_stmt, n_value):
                 break
         e = {'name': rword(rng, LETTERS.lower(), 1, 3), 'parts': [('set', [a])]}
         cases.append(('value:' + a['kind'], elem_text(e), jsx, (node_of(e),)))
+    for _ in range(n_textelem):
+        jsx = rng.random() < 0.2
+        e = rand_text_elem(rng, jsx)
+        cases.append(('textelem', elem_text(e), jsx, (node_of(e),)))
     for _ in range(n_stmt):
         jsx = rng.random() < 0.3
         xs = rand_stmt(rng, jsx)
@@ -340,8 +357,8 @@ def check(abbr, jsx, expected):
     return None, t
 
 
-def run_stream(ctx, prop, n_elem, n_stmt, n_value, kinds=None):
-    cases = gen_cases(ctx, n_elem, n_stmt, n_value)
+def run_stream(ctx, prop, n_elem, n_stmt, n_value, kinds=None, n_textelem=0):
+    cases = gen_cases(ctx, n_elem, n_stmt, n_value, n_textelem)
     if kinds is not None:
         cases = [c for c in cases if c[0].split(':')[0] in kinds]
     tmodel = ctx.model('text')
@@ -415,7 +432,7 @@ def expand_expected(e, cfg):
     return '<%s%s>%s</%s>' % (e['name'], ''.join(au.render_attr(r) for r in spec), text, e['name'])
 
 
-def run_expand_stream(ctx, prop, n):
+def run_expand_stream(ctx, prop, n, text_only=False):
     """Elements of the theorem's grammar through emmet.expand: oracle = the statement of
     C03_expand_element_text (merged mentions written by the output table), model = extracted expand."""
     import re
@@ -427,7 +444,10 @@ def run_expand_stream(ctx, prop, n):
         cfg = json.loads(json.dumps(EXPAND_CFGS[k % len(EXPAND_CFGS)]))
         jsx = cfg.get('syntax') == 'jsx'
         while True:
-            e = rand_elem(rng, jsx) if k >= len(SEEDS) * 2 else json.loads(json.dumps(SEEDS[k // 2]))
+            if text_only:
+                e = rand_text_elem(rng, jsx)
+            else:
+                e = rand_elem(rng, jsx) if k >= len(SEEDS) * 2 else json.loads(json.dumps(SEEDS[k // 2]))
             e['parts'] = [tuple(p) for p in e['parts']]
             if e.get('text') is not None and e['text'][1].startswith('<'):
                 e['text'] = None          # text that starts with a block-level tag is laid out on its own lines (C12)
@@ -438,7 +458,7 @@ def run_expand_stream(ctx, prop, n):
             text = elem_text(e)
             # statement domain: values free of line breaks (a line break inside a value is re-indented: C12)
             if any(c in text for c in '\r\n'):
-                if k < len(SEEDS) * 2:
+                if k < len(SEEDS) * 2 and not text_only:
                     e = {'name': 'x', 'parts': [], 'text': None}
                     break
                 continue
